@@ -56,6 +56,13 @@ class Ctx:
         self.level = "model_checking"
         self.known = load_known()
         self.ncpu = os.cpu_count() or 4
+        if REPO == "/repo":   # replays of an earlier run with the same id and seed are stale
+            import glob
+            for f in glob.glob(os.path.join(VERIF, "replays", "%s-%d-*.json" % (pid, seed))):
+                try:
+                    os.remove(f)
+                except OSError:
+                    pass
 
     # ---------------------------------------------------------------- env
     def goenv(self):
@@ -327,8 +334,10 @@ class Ctx:
         self.sig_counts[key] = self.sig_counts.get(key, 0) + 1
         if self.sig_counts[key] > 1:
             return      # one replay per distinct signature; the count goes to the evidence
-        os.makedirs(os.path.join(VERIF, "replays"), exist_ok=True)
-        path = os.path.join(VERIF, "replays", "%s-%d-%d.json" % (self.pid, self.seed, len(self.violations)))
+        # replays of runs against another tree (VERIF_REPO) or of a stand-alone extension run go to .work/alt-replays
+        rdir = os.path.join(VERIF, "replays") if REPO == "/repo" and not getattr(self, "ext_only", False) else os.path.join(VERIF, ".work", "alt-replays")
+        os.makedirs(rdir, exist_ok=True)
+        path = os.path.join(rdir, "%s-%d-%d.json" % (self.pid, self.seed, len(self.violations)))
         with open(path, "w") as f:
             json.dump({"property": self.pid, "seed": self.seed, "tier": self.tier, "signature": signature,
                        "detail": detail}, f, indent=1, default=str)
